@@ -16,6 +16,7 @@
 (*   isbool : name -> BOOLEAN                                              *)
 (*   isstr  : name -> BOOLEAN                                              *)
 (*   ishex  : name -> BOOLEAN                                              *)
+(*   isint  : name -> BOOLEAN                                              *)
 (*   rhs    : name -> string    right-hand side of its auto.conf line      *)
 (*   aliases: Names -> sequence of deprecated alias names (rename table)    *)
 (*   vv     : Names -> string   build-visible value ("absent" if the name  *)
@@ -74,6 +75,8 @@ Parses(c, ln) == ln[1] \in Defined(c) /\ c.isstr[ln[1]] => ln[2] \in DOMAIN Unq
 \* spellings of hex values to that form, and c.val of a hex option is given in it.
 ValueOf(c, ln) == IF ln[1] \in Defined(c) /\ c.isstr[ln[1]] THEN Unq[ln[2]]
                   ELSE IF ln[1] \in Defined(c) /\ c.ishex[ln[1]] /\ ln[2] \in DOMAIN Unq THEN Unq[ln[2]]
+                  \* ... and an int option by the number the header shows (07 is written 7 there)
+                  ELSE IF ln[1] \in Defined(c) /\ c.isint[ln[1]] /\ ("int:" \o ln[2]) \in DOMAIN Unq THEN Unq["int:" \o ln[2]]
                   ELSE ln[2]
 OldOf(c, lines) ==
   [s \in c.known |->
